@@ -11,16 +11,17 @@ git -C $WT checkout -q --detach $(git -C /repo rev-parse HEAD) 2>/dev/null
 git -C $WT checkout -q -- . && git -C $WT clean -fdq -e target
 export CARGO_TARGET_DIR=$WT/target CARGO_NET_OFFLINE=true
 DEMO=$(python3 -c "import json,sys; print(json.load(open('$D/meta.json')).get('demo_cmd',''))")
-FILTER=$(echo "$DEMO" | sed -n 's/.*-- *\([^ ]*\).*/\1/p')
+FILTER=$(echo "$DEMO" | sed -n "s/.*-- *\([^ ]*\).*/\1/p")
+FEAT=$(echo "$DEMO" | sed -n "s/.*--features *\([^ ]*\).*/--features \1/p")
 PKG=$(echo "$DEMO" | sed -n 's/.*-p *\([^ ]*\).*/\1/p'); PKG=${PKG:-lightning}
 echo "demo filter: $FILTER (package $PKG)"
 out=$D/confirm.txt; : > $out
 cd $WT
 git apply $D/demo.diff || { echo "demo.diff does not apply" | tee -a $out; exit 2; }
-r1=$(cargo test -p $PKG --lib --offline -- $FILTER 2>&1 | grep -a "test result" | head -1)
+r1=$(cargo test -p $PKG --lib --offline $FEAT -- $FILTER 2>&1 | grep -a "test result" | head -1)
 echo "demo WITHOUT patch: $r1" | tee -a $out
 git apply $D/patch.diff || { echo "patch.diff does not apply on top of demo" | tee -a $out; exit 2; }
-r2=$(cargo test -p $PKG --lib --offline -- $FILTER 2>&1 | grep -a "test result" | head -1)
+r2=$(cargo test -p $PKG --lib --offline $FEAT -- $FILTER 2>&1 | grep -a "test result" | head -1)
 echo "demo WITH patch:    $r2" | tee -a $out
 git checkout -q -- . && git clean -fdq -e target
 git apply $D/patch.diff
